@@ -14,6 +14,7 @@ import ast
 
 from harness.translate import py2lean as T
 from harness.translate import gen as G
+from harness.translate import norm_alg as N
 
 S, V, W, P, D = "S", "V", "W", "P", "D"
 SCALARLIKE = (S, P, D)
@@ -192,7 +193,11 @@ def gen_c13(ctx=None):
     out.append(CLASSES)
 
     # ---------------- GradientMethod._update ----------------
-    fn = T.find_function(tree, "GradientMethod._update")
+    # spelling normal form first (harness/translate/norm_alg.py): keywords of util.axpy / backend.copyto made positional
+    # against the callee's `def`, private single-expression helpers substituted, single-assignment temporaries other than
+    # the locals matched by name below inlined.  `model_pure`: the user callables this plugin models as FUNCTIONS anyway.
+    fn = N.normalise_update(tree, "GradientMethod", T.find_function(tree, "GradientMethod._update"),
+                            keep={"xp", "x_old", "t_old"}, model_pure={"self.gradf", "self.proxg"})
     env = {"self.x": ("x", V), "self.z": ("z", V), "x_old": ("x_old", V), "self.alpha": ("alpha", S),
            "t_old": ("t_old", S), "self.t": ("t", S)}
     funcs = {"self.gradf": ("gradf", [V], V), "self.proxg": ("gm_proxg", [S, V], V)}
@@ -220,7 +225,9 @@ def gen_c13(ctx=None):
            allowed_aug=set(), what="GradientMethod._update")
 
     # ---------------- PrimalDualHybridGradient._update ----------------
-    fn = T.find_function(tree, "PrimalDualHybridGradient._update")
+    fn = N.normalise_update(tree, "PrimalDualHybridGradient", T.find_function(tree, "PrimalDualHybridGradient._update"),
+                            keep={"xp", "u_old", "x_ext_diff", "resid_dual", "x_old", "theta", "x_diff"},
+                            model_pure={"self.A", "self.AH", "self.proxfc", "self.proxg"})
     env = {"self.x": ("x", V), "self.u": ("u", W), "self.x_ext": ("x_ext", V), "x_old": ("x_old", V),
            "x_diff": ("x_diff", V), "u_old": ("u_old", W), "self.tau": ("tau", P), "self.sigma": ("sigma", D), "theta": ("theta", S),
            "self.theta": ("theta0", S),
